@@ -297,7 +297,46 @@ def replay_slices(sc):
                     break
         finally:
             np.random.set_state(st)
-    return bool(details), "HEM, coarse grid of 5 states refined once, fixed-date mode: " + "; ".join(details)
+        # scripted fine chain (jump counts 0, 1, 2, 3 on four dates; python lists and numpy arrays of increments): per date the coarse value
+        # is the sum of coupled increments, each a state of the coarse grid adjacent to (odd) or equal to (even) the fine state
+        sim = cmc._path_coupling_simulation
+        fine_axis, piv = np.asarray(cmc.grid.axes[0], dtype=float), cmc.grid.origin_coordinate.value
+        incs = [[], [1], [-1, 2], [-3, -1, 1]]
+        for conv in (list, lambda x: np.array(x, dtype=int)):
+            values = [np.cumsum([fine_axis[piv + i] for i in sl]) if sl else np.empty(0) for sl in incs]
+
+            class _PS:
+                def simulate_markov_chain(self_inner):
+                    return MC.MarkovChain(np.array([1.0, 2.0, 3.0, 4.0]), values, [conv(sl) for sl in incs])
+
+            saved_ps, saved_times = cmc.fine_process._path_simulation, None
+            cmc.fine_process._path_simulation = _PS()
+            try:
+                cmc.next_level(mc_paths=0, path_managers=[StubPathManager()], product=StubProduct(times=np.array([0.0, 1.0, 2.0, 3.0, 4.0])))
+                sim = cmc._path_coupling_simulation
+                fine_axis, piv = np.asarray(cmc.grid.axes[0], dtype=float), cmc.grid.origin_coordinate.value
+                values[:] = [np.cumsum([fine_axis[piv + i] for i in sl]) if sl else np.empty(0) for sl in incs]
+                cmc.fine_process._path_simulation = _PS()
+                fine, coarse = sim.simulate_jumps_with_coupling()
+            except Exception as e:
+                details.append(f"{method.name}: simulate_jumps_with_coupling raises {type(e).__name__}: {str(e)[:90]} on the scripted slices {incs}")
+                break
+            coarse_axis = fine_axis[piv % 2::2]
+            for k, sl in enumerate(incs):
+                lo = sum(max(c for c in coarse_axis if c <= fine_axis[piv + i] + 1e-12) for i in sl)
+                hi = sum(min(c for c in coarse_axis if c >= fine_axis[piv + i] - 1e-12) for i in sl)
+                cands = {round(sum(t), 10) for t in itertools.product(*[sorted({max(c for c in coarse_axis if c <= fine_axis[piv + i] + 1e-12),
+                                                                                min(c for c in coarse_axis if c >= fine_axis[piv + i] - 1e-12)}) for i in sl])} if sl else {0.0}
+                got = float(np.asarray(coarse[k]).ravel()[0]) if np.size(coarse[k]) else 0.0
+                if round(got, 10) not in cands:
+                    details.append(f"{method.name}: slice of fine increments {sl}: coarse value {got!r}, the sums of adjacent coarse states are {sorted(cands)}")
+                want_f = float(values[k][-1]) if sl else 0.0
+                gf = float(np.asarray(fine[k]).ravel()[0]) if np.size(fine[k]) else 0.0
+                if abs(gf - want_f) > 1e-12:
+                    details.append(f"{method.name}: slice {sl}: fine value {gf!r} vs last cumulated fine value {want_f!r}")
+        if details:
+            break
+    return bool(details), "HEM, coarse grid of 5 states refined once, fixed-date mode: " + "; ".join(details[:3])
 
 
 def h_slices(ctx, kind):
